@@ -89,6 +89,27 @@ theorem lt_iff_difference : lt_iff_difference_statement := by
   rw [difference_val t a b va vb ha hb, lt_iff_lex, ← unitNum_lt_iff_lex t va vb ha hb]
   omega
 
+theorem add_no_overflow : add_no_overflow_statement := by
+  intro t a n va ha hy hn hres
+  exact civilAdd_ok t a n va ha hy hn hres
+
+theorem sub_no_overflow : sub_no_overflow_statement := by
+  intro t a n va ha hy hn hres
+  exact civilSub_ok t a n va ha hy hn hres
+
+theorem difference_no_overflow : difference_no_overflow_statement := by
+  intro t a b va vb ha hb hya hyb hr
+  exact difference_ok t a b va vb ha hb hya hyb hr
+
+/-- the hypotheses of the no-overflow theorems are satisfiable at the edges of the range -/
+example : Valid ⟨9223372036854775807, 12, 31, 23, 59, 59⟩ ∧
+    inI64 (Civil.civilSub .second ⟨9223372036854775807, 12, 31, 23, 59, 59⟩ 9223372036854775807).val.y ∧
+    inI64 (Civil.civilAdd .day ⟨-9223372036854775808, 1, 1, 0, 0, 0⟩ 9223372036854775807).val.y ∧
+    ¬ inI64 (Civil.civilSub .day ⟨9223372036854775807, 1, 1, 0, 0, 0⟩ (-9223372036854775808)).val.y ∧
+    inI64 (unitNum .month ⟨384307168202282325, 1, 1, 0, 0, 0⟩ -
+      unitNum .month ⟨-384307168202282325, 1, 1, 0, 0, 0⟩) := by
+  decide +kernel
+
 /-- the hypotheses are satisfiable on non-trivial values -/
 example : Valid ⟨2024, 2, 29, 13, 0, 0⟩ ∧ Aligned .hour ⟨2024, 2, 29, 13, 0, 0⟩ ∧
     Valid ⟨1969, 12, 1, 0, 0, 0⟩ ∧ Aligned .month ⟨1969, 12, 1, 0, 0, 0⟩ := by decide
